@@ -291,6 +291,27 @@ def diamond(join=-1, outcomes=None, err_route=False):
     return P
 
 
+def items_over_subworkflows(n_items=2, conc=None, then=True):
+    """t0 iterates n_items times over sub-workflow sub1 (one action task); every first execution of that action fails,
+    every later one succeeds - so after the items failed, the task inside each item's sub-workflow can be rerun."""
+    P = Program()
+    P.order = ['t0'] + (['t1'] if then else [])
+    P.tasks = {'t0': {'kind': 'workflow', 'workflow': 'sub1', 'with_items': n_items, 'succ': ([{'to': 't1'}] if then else []), 'err': [], 'comp': []}}
+    if conc:
+        P.tasks['t0']['concurrency'] = conc
+    if then:
+        P.tasks['t1'] = {'kind': 'action', 'succ': [], 'err': [], 'comp': []}
+    S = Program()
+    S.name = 'sub1'
+    S.order = ['sub1x0']
+    S.tasks = {'sub1x0': {'kind': 'action', 'succ': [], 'err': [], 'comp': []}}
+    P.subs['sub1'] = S
+    # the oracle counts executions per action tag: the first n_items executions (one per item) fail, later ones succeed
+    P.oracle = {'sub1x0': ['err'] * n_items + ['ok'], 't1': ['ok']}
+    P.flags = {'sub': True, 'items': True}
+    return P
+
+
 def catalogue():
     """Fixed shapes (Sigma) used by the quick tier in addition to random programs."""
     out = []
